@@ -358,6 +358,27 @@ func runC06(c *rt.Ctx) {
 			}
 		}
 	}
+	// cold start: the pool does not exist yet and the backend refuses the first dials while several
+	// callers obtain their handlers (every client connection of memproxy does that for itself): each
+	// caller's command must still reach the backend and get its own answer
+	for _, bs := range []int{1, 2} {
+		for _, cold := range []int{1, 2} {
+			for i := range c0 {
+				if i%2 == 1 && !c.Thorough() {
+					continue
+				}
+				item++
+				if c.Mine(item) && !c.Expired() {
+					callers := []wire.Op{c0[i], c1[(i*7+3)%len(c1)], c2[(i*5+11)%len(c2)]}
+					prep := append(append(append([]wire.Op{}, p0...), p1...), p2...)
+					run(PoolScenario{Harness: "C06", BatchSize: bs, PoolSize: 1, Prep: prep, Callers: callers[:2], ColdStart: cold})
+					if cold == 1 {
+						run(PoolScenario{Harness: "C06", BatchSize: bs, PoolSize: 1, Prep: prep, Callers: callers, ColdStart: cold})
+					}
+				}
+			}
+		}
+	}
 	// a backend that answers very late (ten seconds of virtual time pass while a reply is held back)
 	// and then recovers: the caller still gets its own result, and the pool serves a later caller
 	for _, ps := range []int{1, 2} {
